@@ -349,3 +349,41 @@ def quiet_fds():
         os.dup2(saved, 1)
         os.close(saved)
         os.close(devnull)
+
+
+# ------------------------------------------------------------------ direct calls on documented extension points
+
+def make_sequence(values, seq):
+    """A vector of sums as list / tuple / int64 array / float64 array."""
+    if seq == "list":
+        return list(values)
+    if seq == "tuple":
+        return tuple(values)
+    if seq == "iarray":
+        return np.array(values, dtype=np.int64)
+    if seq == "farray":
+        return np.array(values, dtype=np.float64)
+    raise env.HarnessError(f"unknown sequence type {seq}")
+
+
+def objective_call(spec, sums, seq="list", declared_sorted=None, weights=None, method="value_to_minimize", remaining=None):
+    """Call value_to_minimize / lower_bound of a built-in objective directly.  declared_sorted None = argument omitted."""
+    o = obj.MaximizeSmallestWeightedSum(list(weights)) if spec == "wmaxmin" else make_objective(spec)
+    arg = make_sequence(sums, seq)
+
+    def run():
+        kw = {}
+        if declared_sorted is not None:
+            kw["are_sums_in_ascending_order"] = declared_sorted
+        if method == "value_to_minimize":
+            raw = o.value_to_minimize(arg, **kw)
+        else:
+            raw = o.lower_bound(arg, remaining, **kw)
+        if isinstance(raw, np.ndarray):
+            if raw.shape != ():
+                raise TypeError(f"objective returned an array of shape {raw.shape}, not a number")
+            raw = raw[()]
+        return num(raw)
+    out = guarded(run)
+    after = arg.tolist() if isinstance(arg, np.ndarray) else list(arg)
+    return out, [num(x) for x in after]
